@@ -527,12 +527,12 @@ func watcherReplay(args []string) {
 					mismatch = "obs"
 					break
 				}
-				if onPath && obsKey(path[pi], true) != k && o.Changed != nil {
+				if onPath && (pi >= len(path) || (obsKey(path[pi], true) != k && o.Changed != nil)) {
 					onPath = false
 				}
 				pi++
-				if len(cn.order) == 0 {
-					break // terminal
+				if len(cn.order) == 0 || (onPath && pi >= len(path) && cn.leafIdx >= 0) {
+					break // terminal (of the whole tree, or of the behaviour being reproduced)
 				}
 				var ck string
 				if onPath && pi < len(path) {
